@@ -113,7 +113,12 @@ def quantifier(interp, kind, node, env):
                 if tv:
                     pats = [z3.MultiPattern(*tv) if len(tv) > 1 else tv[0]]
     q = z3.ForAll if kind == "forall" else z3.Exists
-    return q(vars_, body, patterns=pats) if pats else q(vars_, body)
+    if pats:
+        try:
+            return q(vars_, body, patterns=pats)
+        except z3.Z3Exception:
+            pass
+    return q(vars_, body)
 
 
 class CallMixin(object):
@@ -240,6 +245,10 @@ class CallMixin(object):
             if self.path.nondet("may_raise"):
                 raise PyRaise(etype, origin="may be raised by %s (contract)" % callee)
         self.path.event("call", callee, dict(env.vars))
+        if c.init_fields_ is not None and env.has("self") and isinstance(env.lookup("self"), Inst):
+            inst = env.lookup("self")
+            for fld, t in c.init_fields_.items():
+                inst.fields[fld] = fresh_of_type(self, t, "new.%s" % fld)
         if c.yields_type_ is not None:
             return self.contract_generator(c, env, callee)
         result = None
@@ -249,7 +258,7 @@ class CallMixin(object):
         self.old_env = env
         try:
             for name, expr, _opts in c.ensures_:
-                self.path.assume(self.spec(expr, env, extra={"result": result}))
+                self.path.assume(self.spec(expr, env, extra={"result": result}), tag=name)
         finally:
             self.old_env = saved_old
         return result
@@ -269,9 +278,9 @@ class CallMixin(object):
             pat = [trig[0](k)] if trig else None
             q = z3.ForAll([k], z3.Implies(z3.And(k >= 0, k < seq.length), body), patterns=pat) if pat else \
                 z3.ForAll([k], z3.Implies(z3.And(k >= 0, k < seq.length), body))
-            self.path.assume(q)
+            self.path.assume(q, tag=name)
         for name, expr in c.yields_seq_:
-            self.path.assume(self.spec(expr, env, extra={"Y": seq}))
+            self.path.assume(self.spec(expr, env, extra={"Y": seq}), tag=name)
         return GenVal(c, env, seq)
 
     # ------------------------------------------------------------------ methods
